@@ -32,6 +32,9 @@ inductive Stmt where
   | setArg (f : Field)                 -- `= x` / `= x as u32`
   | failIfZero (m : Msg)               -- `if x == 0 | x < 1 { panic!(MSG) / return Err(MSG) }`  (unsigned argument)
   | failIfNonPos (m : Msg)             -- `if x <= 0 { Err(MSG) } else { .. }`                  (signed argument)
+  | setFalse (f : Field)               -- `= false`
+  | setNotArg (f : Field)              -- `= !x`
+  | setTrueIfArg (f : Field)           -- `if x { FIELD = true; }`
 deriving DecidableEq, Repr, Inhabited
 
 inductive ArgKind where | none | bool | nat | int
